@@ -78,6 +78,7 @@ def run(ctx, clause_prefixes):
     case["exc"] = ""
     case["ref_sig"] = case["sig"]
     case["order_seen"] = case["perm"]
+    case["col2"] = ""
     return case
   if not fnspec.mutation_selftest("Trace_RecalcFinal", files[0], mutate, ctx.workdir):
     raise tlc.MachineryError("self-test: corrupted case accepted by Trace_RecalcFinal")
